@@ -215,7 +215,7 @@ def run(shard, ctx):
             nc, m = NoteContainer(), SetModel()
             hist = []
             for step in range(rng.randint(1, 40)):
-                op = rng.randrange(12) if rng.random() < 0.9 else rng.choice([12, 13, 14, 15, 16, 17])
+                op = rng.randrange(12) if rng.random() < 0.88 else rng.choice([12, 13, 14, 15, 16, 17, 18, 18, 18])
                 n = rng.choice(NAMES16)
                 o = rng.choice([0, 1, 2, 3, 4, 5, 6, 3, 4, 5])
                 if op == 14:
@@ -227,6 +227,31 @@ def run(shard, ctx):
                     f = lambda: nc.add_notes(nc.notes); hist.append(("add_notes(its own notes list)",))
                 elif op == 17:
                     f = lambda: nc + nc; hist.append(("+ itself",))
+                elif op == 18:
+                    # one list mixing every item form in any order: a bare name after a lower entry that carries its octave is
+                    # voiced above the top note the container has by then, not above the entry before it (seed C12-11B)
+                    lst, acts = [], []
+                    for _ in range(rng.randint(2, 4)):
+                        a, b = rng.choice(NAMES16), rng.randint(1, 6)
+                        form = rng.choice(["bare", "bare", "str", "pair", "note"])
+                        if form == "bare":
+                            lst.append(a); acts.append((a,))
+                        elif form == "str":
+                            lst.append("%s-%d" % (a, b)); acts.append((a, b))
+                        elif form == "pair":
+                            lst.append([a, b]); acts.append((a, b))
+                        else:
+                            lst.append(Note(a, b)); acts.append((a, b))
+                    via = rng.choice(["add_notes", "+", "ctor"]) if not hist else rng.choice(["add_notes", "+"])
+                    if via == "ctor":
+                        def f(l_=lst):
+                            nc.notes = NoteContainer(l_).notes
+                    elif via == "+":
+                        f = lambda l_=lst: nc + l_
+                    else:
+                        f = lambda l_=lst: nc.add_notes(l_)
+                    [m.add(*x) for x in acts]
+                    hist.append(("%s list of mixed forms" % via, repr(lst)))
                 elif op == 12:
                     # the container is emptied and used again
                     f = lambda: nc.empty(); m.m = []; hist.append(("empty",))
